@@ -1,53 +1,8 @@
-// hsearch: harness for the properties anchored in pkg/search (C08, C19, ...).
-//
-//	hsearch gen <prop> <seed> <n> <dir> [shard]  (corpus and grid only in shard 0) writes <dir>/cases.txt
-//	hsearch run <prop> <dir>              reads <dir>/cases.txt, writes <dir>/go_obs.txt and <dir>/oracle.txt
+// hsearch: harness for the properties anchored in pkg/search (C08, C14, C19, ...).
 package main
 
-import (
-	"fmt"
-	"os"
-	"strconv"
+import "verifharness/common"
 
-	"verifharness/common"
-)
+var props = map[string]common.Prop{}
 
-type prop struct {
-	gen func(rng *common.Rng, n int, shard int, out *common.Out)
-	run func(cases []string, obs, oracle *common.Out)
-}
-
-var props = map[string]prop{}
-
-func main() {
-	if len(os.Args) < 4 {
-		fmt.Fprintln(os.Stderr, "usage: hsearch gen|run <prop> ...")
-		os.Exit(2)
-	}
-	p, ok := props[os.Args[2]]
-	if !ok {
-		fmt.Fprintln(os.Stderr, "unknown property", os.Args[2])
-		os.Exit(2)
-	}
-	switch os.Args[1] {
-	case "gen":
-		seed, _ := strconv.ParseUint(os.Args[3], 10, 64)
-		n, _ := strconv.Atoi(os.Args[4])
-		dir := os.Args[5]
-		shard := 0
-		if len(os.Args) > 6 {
-			shard, _ = strconv.Atoi(os.Args[6])
-		}
-		out := common.Create(dir + "/cases.txt")
-		p.gen(common.NewRng(seed), n, shard, out)
-		out.Close()
-	case "run":
-		dir := os.Args[3]
-		cases := common.ReadLines(dir + "/cases.txt")
-		obs := common.Create(dir + "/go_obs.txt")
-		oracle := common.Create(dir + "/oracle.txt")
-		p.run(cases, obs, oracle)
-		obs.Close()
-		oracle.Close()
-	}
-}
+func main() { common.Main(props) }
